@@ -248,12 +248,12 @@ func c17Command(rc *RunCtx, t *simrt.Tape) {
 	viaStdin := t.Choose(3) == 2
 	viaPipe := false
 	if viaStdin {
-		// the C reader of standard input only knows gzip; through a pipe (not seekable) any
-		// damaged image must still be refused, whatever zlib makes of its first bytes
+		// the C reader of standard input only knows gzip (bzip2, xz and zstd are not readable
+		// there even when intact, so what it makes of a damaged one is not this property's
+		// matter); through a pipe (not seekable) a damaged gzip image must still be refused,
+		// whatever zlib makes of its first bytes
 		viaPipe = t.Choose(2) == 1
-		if !viaPipe || codec == 4 {
-			codec = []int{1, 5}[t.Choose(2)]
-		}
+		codec = []int{1, 5}[t.Choose(2)]
 	}
 	image := compress(codec, fc.Text)
 	kind := t.Choose(2)
